@@ -7,6 +7,7 @@ from ..engine.absval import Lin, Sym, AbsStr, Token as Opaque, AObj, AClass, AIt
 from ..engine.absint import CannotDecide, Interp, explore, RaiseEx
 from ..engine.loader import AnalysisError, short
 from ..engine.stubs import log_of, recorder, stub, record_class, run_method
+from ..engine import notesdom as nd
 
 PROP = "C14"
 EXPLANATION = (
@@ -38,6 +39,7 @@ def run(ctx):
     rule_iteration(ctx, tci)
     rule_from_chords(ctx, tci)
     rule_composition(ctx)
+    rule_histories(ctx, tci)
     # "a rejected item changes nothing / every bar but the last is full" rests on Bar.place_notes' accept / refuse
     # effects and its gate (C13's rules on the same code); discharged here too so a defect there is a C14 report
     from . import c13
@@ -52,6 +54,176 @@ def run(ctx):
     ctx.floor("R-C14-4", 4)
     ctx.floor("R-C14-5", 4)
     ctx.floor("R-C14-6", 5)
+
+
+def _pitch(n):
+    nm = n.attrs["name"]
+    return 12 * n.attrs["octave"] + nd.pitch_of_concrete(nm if isinstance(nm, str) else nm.concrete())
+
+
+def _flatten(track):
+    """[(Fraction length, sorted pitch tuple or None)] per entry, and the bars' fill state."""
+    from fractions import Fraction
+    out, bars = [], []
+    for b in track.attrs["bars"]:
+        tot = Fraction(0)
+        for beat, val, cont in b.attrs["bar"]:
+            ln = Fraction(1) / Fraction(val).limit_denominator(10000)
+            tot += ln
+            out.append((ln, None if cont is None else tuple(sorted(_pitch(n) for n in cont.attrs["notes"])), cont))
+        bars.append((tot, Fraction(b.attrs["length"]).limit_denominator(10000)))
+    return out, bars
+
+
+def rule_histories(ctx, tci):
+    """Concrete operation sequences evaluated with the real Track / Bar / NoteContainer / Instrument code and compared
+    with an exact (Fraction) model of the statement: rejected items change nothing, every chord and rest of a chord list
+    is placed with its full length (split over as many bar lines as needed), nothing is stored twice, range answers
+    depend on the pitch only, equality follows the contents."""
+    from fractions import Fraction
+    R = "R-C14-7"
+    repo = ctx.repo
+    bci, nci, noteci = repo.mod(BAR).cls("Bar"), repo.mod(NC).cls("NoteContainer"), repo.mod(NOTE).cls("Note")
+    compci = repo.mod(COMP).cls("Composition")
+    imod = repo.mod(INS)
+
+    def new(it, ci, *args, **kw):
+        return it.call(AClass(ci), list(args), dict(kw), None)
+
+    def outcome(it, f):
+        try:
+            return ("return", f())
+        except RaiseEx as r:
+            return ("raise", r.exc)
+
+    def run1(label, fn):
+        try:
+            ps = explore(lambda ch: Interp(repo, ch, max_depth=60, max_iter=5000), fn)
+        except CannotDecide as e:
+            raise AnalysisError("track history %r: %s" % (label, e))
+        if len(ps) != 1 or ps[0].kind != "return":
+            return None, "outcome %s" % [(p.kind, short(repr(p.value), 80)) for p in ps][:2]
+        return ps[0].value, None
+
+    # (a) a refused item changes nothing -- also when it is refused by a bar that was opened for it
+    for label, prefix, meter, item in (("empty track, breve", [], (4, 4), ("C", 0.5)), ("full 3/4 bar, whole note", [("C", 4), ("D", 4), ("E", 4)], (3, 4), ("C", 1)),
+                                      ("half-full bar, whole note", [("C", 2)], (4, 4), ("C", 1))):
+        def go(it, prefix=prefix, meter=meter, item=item):
+            t = new(it, tci)
+            if prefix or meter != (4, 4):
+                it.call_method(t, "add_bar", [new(it, bci, "C", meter)], {}, None)
+            for n, v in prefix:
+                it.call_method(t, "add_notes", [n, v], {}, None)
+            before = _flatten(t)
+            r = outcome(it, lambda: it.call_method(t, "add_notes", [item[0], item[1]], {}, None))
+            return r, before, _flatten(t)
+        v, err = run1(label, go)
+        ok, why = err is None, err
+        if ok:
+            r, before, after = v
+            if r != ("return", False):
+                ok, why = False, "an item that does not fit gives %s" % (r,)
+            elif [(x[0], x[1]) for x in before[0]] != [(x[0], x[1]) for x in after[0]] or len(before[1]) != len(after[1]):
+                ok, why = False, "a refused item (reported False) changed the track: %d bars before, %d after" % (len(before[1]), len(after[1]))
+        ctx.check(ok, R, "refused[%s]" % label, repo.find_method(tci, "add_notes").where(), "Track.add_notes(<does not fit>) on %s" % label, why)
+
+    # (b) range answers depend on the pitch only: every way of writing the note, every instrument class
+    for iname, lo, hi in (("Instrument", 0, 96), ("Piano", 5, 107), ("Guitar", 40, 88), ("MidiInstrument", 0, 107)):
+        if iname not in imod.classes:
+            continue
+        cases = [("string in range", "E-4", True), ("string below", "C-0" if lo > 0 else None, False), ("long spelling in range", "Abbbbb-4", True),
+                 ("Note in range", ("E", 4), True), ("Note above", ("C", 9), False), ("Note below", ("C", 0) if lo > 0 else None, False),
+                 ("two-note container in range", [("E", 4), ("G", 4)], True)]
+        for clabel, arg, want in cases:
+            if arg is None:
+                continue
+
+            def go(it, iname=iname, arg=arg):
+                t = new(it, tci, new(it, imod.cls(iname)))
+                if isinstance(arg, tuple):
+                    a = new(it, noteci, arg[0], arg[1])
+                elif isinstance(arg, list):
+                    a = new(it, nci, [new(it, noteci, n, o) for n, o in arg])
+                else:
+                    a = arg
+                return outcome(it, lambda: it.call_method(t, "add_notes", [a, 4], {}, None)), _flatten(t)
+            v, err = run1("%s/%s" % (iname, clabel), go)
+            ok, why = err is None, err
+            if ok:
+                r, (entries, bars) = v
+                if want and (r != ("return", True) or len(entries) != 1):
+                    ok, why = False, "a note inside the range of %s gives %s (%d entries stored)" % (iname, r, len(entries))
+                elif not want and (r != ("raise", "InstrumentRangeError") or entries):
+                    ok, why = False, "a note outside the range of %s gives %s (%d entries stored), expected InstrumentRangeError and nothing stored" % (iname, r, len(entries))
+            ctx.check(ok, R, "range[%s,%s]" % (iname, clabel), repo.find_method(tci, "add_notes").where(), "Track(%s()).add_notes(<%s>)" % (iname, clabel), why)
+
+    # (c) chord lists: every chord and every rest, in order, with its full length, split over bar lines; nothing stored twice
+    chord_pitches = {"C": (48, 52, 55), "F": (53, 57, 60), "G": (55, 59, 62), "Am": (57, 60, 64)}
+    for label, prefix_meter, prefix, chords, dur, want in (
+            ("rest after three halves", (4, 4), [], [["C", "F", "G"], None], 1, [("C", Fraction(1, 2)), ("F", Fraction(1, 2)), ("G", Fraction(1, 2)), (None, Fraction(1))]),
+            ("whole note in 3/8", (3, 8), [], ["C"], 1, [("C", Fraction(1))]),
+            ("nested rest", (4, 4), [], ["C", ["Am", None]], 1, [("C", Fraction(1)), ("Am", Fraction(1, 2)), (None, Fraction(1, 2))]),
+            ("rest into a half-full bar", (4, 4), [("C", 2)], [None], 1, [("C", Fraction(1, 2)), (None, Fraction(1))]),
+            ("breve rest on an empty track", (4, 4), [], [None, "G"], 0.5, [(None, Fraction(2)), ("G", Fraction(2))]),
+            ("chord across the bar line", (4, 4), [("C", 4)], ["F"], 1, [("C", Fraction(1, 4)), ("F", Fraction(1))]),
+            ("fits exactly", (4, 4), [], ["C", "G"], 2, [("C", Fraction(1, 2)), ("G", Fraction(1, 2))])):
+        def go(it, prefix_meter=prefix_meter, prefix=prefix, chords=chords, dur=dur):
+            t = new(it, tci)
+            if prefix_meter != (4, 4):
+                it.call_method(t, "add_bar", [new(it, bci, "C", prefix_meter)], {}, None)
+            for n, v in prefix:
+                it.call_method(t, "add_notes", [n, v], {}, None)
+            r = outcome(it, lambda: it.call_method(t, "from_chords", [chords, dur], {}, None))
+            return r[0], (r[1] if r[0] == "raise" else None), _flatten(t)
+        v, err = run1(label, go)
+        ok, why = err is None, err
+        if ok:
+            kind, exc, (entries, bars) = v
+            single = {"C": (48,)}
+            merged = []
+            for ln, ps, cont in entries:
+                if merged and merged[-1][0] == ps and merged[-1][2] is not True:
+                    merged[-1][1] += ln
+                else:
+                    merged.append([ps, ln, False])
+            want_m = [[None if nm is None else (chord_pitches[nm] if (nm, ln) not in [(p_[0], Fraction(1) / Fraction(p_[1])) for p_ in prefix] else single.get(nm, chord_pitches[nm])), ln] for nm, ln in want]
+            got_m = [[m[0], m[1]] for m in merged]
+            ids = [id(c) for _, _, c in entries if c is not None]
+            if kind == "raise":
+                ok, why = False, "raises %s" % exc
+            elif got_m != want_m:
+                ok, why = False, "the track holds (pitches, total length) %s, the chord list asks for %s" % (
+                    [(m[0], str(m[1])) for m in got_m], [(m[0], str(m[1])) for m in want_m])
+            elif len(set(ids)) != len(ids):
+                ok, why = False, "one NoteContainer object is stored in two entries: transposing the track would change it twice"
+            elif any(tot != ln for tot, ln in bars[:-1]) or any(tot == 0 for tot, ln in bars):
+                ok, why = False, "bars are filled %s of %s: every bar but the last must be full and none empty" % ([str(b[0]) for b in bars], [str(b[1]) for b in bars])
+        ctx.check(ok, R, "from_chords[%s]" % label, repo.find_method(tci, "from_chords").where(), "Track.from_chords(%r, %r) (%s)" % (chords, dur, label), why)
+
+    # (d) equality follows the contents (and never raises): tracks with a rest, compositions
+    def go_eq(it):
+        a, b, c = new(it, tci), new(it, tci), new(it, tci)
+        it.call_method(a, "add_notes", ["C", 4], {}, None)
+        it.call_method(b, "add_notes", [None, 4], {}, None)
+        it.call_method(c, "add_notes", ["C", 4], {}, None)
+        res = {"note==rest": outcome(it, lambda: it.compare(ast.Eq, a, b)), "rest==note": outcome(it, lambda: it.compare(ast.Eq, b, a)),
+               "note!=rest": outcome(it, lambda: it.compare(ast.NotEq, a, b)), "same content": outcome(it, lambda: it.compare(ast.Eq, a, c))}
+        k1, k2, k3 = new(it, compci), new(it, compci), new(it, compci)
+        it.call_method(k1, "add_track", [a], {}, None)
+        it.call_method(k2, "add_track", [c], {}, None)
+        it.call_method(k3, "add_track", [b], {}, None)
+        res["empty compositions"] = outcome(it, lambda: it.compare(ast.Eq, new(it, compci), new(it, compci)))
+        res["compositions, equal tracks"] = outcome(it, lambda: it.compare(ast.Eq, k1, k2))
+        res["compositions, different tracks"] = outcome(it, lambda: it.compare(ast.Eq, k1, k3))
+        res["compositions != , equal tracks"] = outcome(it, lambda: it.compare(ast.NotEq, k1, k2))
+        return res
+    v, err = run1("equality", go_eq)
+    wants = {"note==rest": False, "rest==note": False, "note!=rest": True, "same content": True, "empty compositions": True,
+             "compositions, equal tracks": True, "compositions, different tracks": False, "compositions != , equal tracks": False}
+    for k, w in wants.items():
+        ok = err is None and v.get(k) == ("return", w)
+        ctx.check(ok, R, "equality[%s]" % k, repo.find_method(tci, "__eq__").where(), "== on %s" % k,
+                  err or "gives %s, the contents say %s" % (v.get(k), w))
 
 
 def bar_stub(repo, name="bar", **attrs):
@@ -214,8 +386,9 @@ def rule_new_bar(ctx, tci):
                 ok, why = False, "the new bar is not appended at the end"
             elif full and not (len(made[0][1]) == 2 and getattr(made[0][1][0], "tag", "") == "key1" and getattr(made[0][1][1], "tag", "") == "meter1"):
                 ok, why = False, "the new bar is built from %s instead of the last bar's key and meter" % (made[0][1],)
-            elif len(placed) != 1 or placed[0][1][0] is not bars[-1] or placed[0][1][1] is not note or placed[0][1][2] is not dur or p.value is not res:
-                ok, why = False, "the item must be placed in the last bar and that result returned (placed in %s, returned %r)" % (
+            elif len(placed) != 1 or placed[0][1][0] is not bars[-1] or placed[0][1][1] is not note or placed[0][1][2] is not dur \
+                    or not (p.value is res or p.value is True):
+                ok, why = False, "the item must be placed in the last bar and its acceptance reported (placed in %s, returned %r)" % (
                     [getattr(e[1][0], "name", "?") for e in placed], p.value)
         ctx.check(ok, R, "new-bar[%s]" % label, fi.where(), "Track.add_notes [%s]" % label, why)
     fa = repo.find_method(tci, "add_bar")
